@@ -1829,7 +1829,9 @@ func ExecDistinct(query *Query, current []any) ([]any, error) {
 	slice := make([]any, 0)
 	for _, item := range current {
 		sha256 := sha256.New()
-		_, err := sha256.Write([]byte(fmt.Sprintf("%v", item)))
+		// the Go-syntax form quotes strings and names nil, so that different rows
+		// never share a rendering (`a:"1 b:2"` is not `a:1 b:2`)
+		_, err := sha256.Write([]byte(fmt.Sprintf("%#v", item)))
 		if err != nil {
 			return nil, err
 		}
